@@ -14,8 +14,8 @@ def run(ctx):
     r = tlc_expect_ok(tlc("MC_Timestamp", "MC_Timestamp.cfg", name="mc_timestamp", workers=2, timeout=600), "MC Timestamp")
     ctx.add_tlc(r)
     vecs = tlc_expect_ok(tlc("MC_Timestamp", "MC_Timestamp_emit.cfg", name="timestamp_emit", workers=2, timeout=600, coverage=False), "emit").printed("VEC")
-    if len(vecs) != 34:
-        raise ToolError("expected 34 vectors, got %d" % len(vecs))
+    if len(vecs) != 51:
+        raise ToolError("expected 51 vectors, got %d" % len(vecs))
     d = ctx.path("pki")
     shutil.rmtree(d, ignore_errors=True); os.makedirs(d)
     try:
@@ -29,30 +29,37 @@ def run(ctx):
         end = now + datetime.timedelta(seconds=WINDOW)
         sk, sc, sp8 = K.issue(d, "shortleaf", "VH Short Leaf", ik, ic, start=(now - datetime.timedelta(hours=1)).strftime("%Y%m%d%H%M%SZ"), end=end.strftime("%Y%m%d%H%M%SZ"))
         t_end = int(time.time()) + WINDOW
+        # a certificate whose validity begins WINDOW seconds from now: signed with at once (the token places the signing before
+        # the validity), read once it has become valid
+        fk, fc, fp8 = K.issue(d, "futureleaf", "VH Future Leaf", ik, ic, start=end.strftime("%Y%m%d%H%M%SZ"), end=(now + datetime.timedelta(days=300)).strftime("%Y%m%d%H%M%SZ"))
     except K.KitError as e:
         raise ToolError("PKI generation failed: %s" % e)
     chain_valid = K.cat([lc, ic], os.path.join(d, "chain.pem"))
     chain_short = K.cat([sc, ic], os.path.join(d, "chain_short.pem"))
+    chain_future = K.cat([fc, ic], os.path.join(d, "chain_future.pem"))
     both = open(rc).read() + open(trc).read()
     only_signer = open(rc).read()
     runs = []
     # short-lived certificate first (it must be signed with while it is valid), reads after it expired
-    order = sorted(range(len(vecs)), key=lambda i: vecs[i]["cert"] != "expired-since-signing")
+    order = sorted(range(len(vecs)), key=lambda i: vecs[i]["cert"] == "valid")
     for i in order:
         v = vecs[i]
         short = v["cert"] == "expired-since-signing"
-        x = {"id": i, "chain": chain_short if short else chain_valid, "key": sp8 if short else lp8, "alg": "es256",
+        future = v["cert"] == "valid-only-after-signing"
+        x = {"id": i, "chain": chain_short if short else (chain_future if future else chain_valid), "key": sp8 if short else (fp8 if future else lp8), "alg": "es256",
              "sign_settings": {"verify": {"verify_after_sign": False, "verify_trust": False}},
              "reads": [{"name": "r", "settings": {"trust": {"trust_anchors": both if v["anchoring"] == "anchored" else only_signer}, "verify": {"verify_trust": True, "verify_timestamp_trust": True}}}]}
+        if future:
+            x["decoy"] = True      # the signer's own validity test sees a conforming chain first (C06's device): the SDK refuses to sign with a certificate that is not valid yet
         if v["token"] == "present":
             # one TSA configuration (serial file) per vector: the short-lived vectors run as parallel processes
             x["tsa"] = {"config": K.tsa_config(d, "t%d" % i, tc, tk, os.path.join(d, "tsachain.pem"), digest="sha256" if v["tsaAlg"] == "supported" else "sha1"), "imprint": v["imprint"], "corrupt": v["sig"] == "corrupt"}
         runs.append(x)
     # two passes: sign + read the long-lived ones normally; the short-lived ones are signed now and read after expiry
-    first = [dict(x) for x in runs if vecs[x["id"]]["cert"] == "expired-since-signing"]
+    first = [dict(x) for x in runs if vecs[x["id"]]["cert"] != "valid"]
     for x in first:
         x["read_not_before"] = t_end + 3
-    rest = [x for x in runs if vecs[x["id"]]["cert"] != "expired-since-signing"]
+    rest = [x for x in runs if vecs[x["id"]]["cert"] == "valid"]
     if time.time() > t_end - 15:
         raise ToolError("certificate generation took too long: the short-lived certificate is about to expire before signing")
     # every short-lived vector must be SIGNED before expiry; pki-run signs and reads one vector at a time, so the sleeping
@@ -97,13 +104,17 @@ def run(ctx):
         if v["verdict"] == "not-valid":
             if state in ("Valid", "Trusted"):
                 ctx.violation("expired-accepted-without-usable-token:%s" % key, "the signing certificate expired and no usable token covers the signing, yet the manifest is %s" % state, case)
+        elif v["verdict"] == "not-trusted":
+            if state == "Trusted":
+                ctx.violation("trusted-outside-validity:%s" % key, "a usable token of an anchored TSA places the signing before the certificate's validity began, yet the credential is reported Trusted", case)
         elif v["verdict"] == "accepted":
-            if expired_flag or state not in ("Valid", "Trusted"):
+            # (the signer's root is among the configured anchors in every run: acceptance means Trusted)
+            if expired_flag or state != "Trusted":
                 ctx.violation("accepted-case-rejected:%s" % key, "expected acceptance (certificate %s, token usable=%s) but state is %s, failures %s" % (v["cert"], v["usable"], state, sorted(c[1] for c in read["active"] if c[0] == "failure")), case)
         if v["usable"] and v["anchoring"] == "anchored" and "timeStamp.trusted" not in codes:
             ctx.drift_note("Timestamp", "anchored TSA not reported as timeStamp.trusted for %s" % key)
     ctx.cov["traces_validated_against_impl"] += len(vecs)
     ctx.cov["evaluations"] = len(vecs)
-    ctx.cov["distinct_nontrivial"] = sum(1 for v in vecs if v["cert"] == "expired-since-signing")
-    ctx.cov["rule"] = "all 34 combinations of token presence x imprint x CMS signature x TSA signature algorithm (supported / ECDSA with SHA-1) x TSA anchoring x certificate (valid / expired since signing); non-trivial = the certificate that expires between signing and reading"
+    ctx.cov["distinct_nontrivial"] = sum(1 for v in vecs if v["cert"] != "valid")
+    ctx.cov["rule"] = "all 51 combinations of token presence x imprint x CMS signature x TSA signature algorithm (supported / ECDSA with SHA-1) x TSA anchoring x certificate (valid / expired since signing / valid only after signing); non-trivial = the certificate that expires between signing and reading"
     ctx.sample({"vector": vecs[0]})
